@@ -51,6 +51,11 @@ struct Gates {
     hold_run: AtomicBool,
     /// hold the next run at `run.end` (after it has read `should_notify`, before it releases the lock)
     hold_end: AtomicBool,
+    /// hold the next run in front of its k-th scored item (0 = off); falls back to `run.end`
+    hold_item: AtomicU64,
+    item_count: AtomicU64,
+    /// where the parked run is: 1 = run.start, 2 = run.end, 3 = k-th item
+    parked_kind: AtomicU64,
     /// a run is currently parked
     parked: AtomicBool,
     release: AtomicBool,
@@ -96,16 +101,30 @@ impl H {
         let ms: Vec<String> = s.matches().iter().map(|m| format!("{}.{}", m.score, m.idx)).collect();
         // every match must be readable and carry the right columns
         let mut ok = String::new();
+        // reading a match must never panic; if it does the match is reported as unreadable
+        let quiet = |f: &mut dyn FnMut() -> (bool, String)| -> (bool, String) {
+            match std::panic::catch_unwind(std::panic::AssertUnwindSafe(|| f())) {
+                Ok(r) => r,
+                Err(_) => (false, "n".to_string()),
+            }
+        };
+        let mut vals: Vec<String> = Vec::new();
         for (k, m) in s.matches().iter().enumerate() {
-            let a = s.get_item(m.idx);
-            let b = s.get_matched_item(k as u32);
-            let good = match (a, b) {
-                (Some(a), Some(b)) => a.data.0 == b.data.0 && (0..self.cols).all(|j| a.matcher_columns[j].to_string() == col_text(a.data.0, j)),
-                _ => false,
-            };
+            let cols = self.cols;
+            let (good, val) = quiet(&mut || {
+                let a = s.get_item(m.idx);
+                let b = s.get_matched_item(k as u32);
+                match (a, b) {
+                    (Some(a), Some(b)) => (
+                        a.data.0 == b.data.0 && (0..cols).all(|j| a.matcher_columns[j].to_string() == col_text(a.data.0, j)),
+                        a.data.0.to_string(),
+                    ),
+                    _ => (false, "n".to_string()),
+                }
+            });
             ok.push(if good { '1' } else { '0' });
+            vals.push(val);
         }
-        let vals: Vec<String> = s.matches().iter().map(|m| s.get_item(m.idx).map(|i| i.data.0.to_string()).unwrap_or("n".into())).collect();
         let pd = format!("{:?}", (0..self.cols).map(|c| s.pattern().column_pattern(c).atoms.clone()).collect::<Vec<_>>());
         let pid = self.pat_debug.iter().position(|d| *d == pd).map(|i| i as i64).unwrap_or(-1);
         format!(
@@ -120,6 +139,8 @@ impl H {
 
     fn record(&mut self, what: String, nf_before: u32, with_snap: bool) {
         let nf = self.notify.load(Ordering::SeqCst) - nf_before;
+        // progress on stderr: if the real code panics / aborts, the history so far is the replay
+        eprintln!("EV {what}");
         let mut e = format!("{}|ai={}|nf={}|dr={}", what, self.nucleo.active_injectors(), nf, dropped_str());
         if with_snap {
             e.push_str(&format!("|snap={}", self.snapshot_str()));
@@ -159,12 +180,15 @@ fn main() {
 }
 
 fn run_history(rng: &mut Rng, mode: &str, _k: usize) -> String {
-    let pool = 1 + rng.below(3) as usize;
+    let pool = if rng.chance(1, 2) { 1 } else { 2 + rng.below(2) as usize };
     let cols = 1 + rng.below(2) as usize;
     let notify = Arc::new(AtomicU32::new(0));
     let gates = Arc::new(Gates {
         hold_run: AtomicBool::new(false),
         hold_end: AtomicBool::new(false),
+        hold_item: AtomicU64::new(0),
+        item_count: AtomicU64::new(0),
+        parked_kind: AtomicU64::new(0),
         parked: AtomicBool::new(false),
         release: AtomicBool::new(false),
         run_ended: AtomicU64::new(0),
@@ -174,9 +198,28 @@ fn run_history(rng: &mut Rng, mode: &str, _k: usize) -> String {
     {
         let g = gates.clone();
         nucleo::verif::set_callback(Some(Arc::new(move |site, _arg| match site {
+            "run.score_item" => {
+                let k = g.hold_item.load(Ordering::SeqCst);
+                if k != 0 {
+                    let c = g.item_count.fetch_add(1, Ordering::SeqCst) + 1;
+                    if c == k {
+                        g.hold_item.store(0, Ordering::SeqCst);
+                        g.hold_end.store(false, Ordering::SeqCst);
+                        g.parked_kind.store(3, Ordering::SeqCst);
+                        g.parked.store(true, Ordering::SeqCst);
+                        while !g.release.load(Ordering::SeqCst) {
+                            std::thread::sleep(Duration::from_micros(100));
+                        }
+                        g.release.store(false, Ordering::SeqCst);
+                        g.parked.store(false, Ordering::SeqCst);
+                    }
+                }
+            }
             "run.start" => {
                 g.run_started.fetch_add(1, Ordering::SeqCst);
+                g.item_count.store(0, Ordering::SeqCst);
                 if g.hold_run.swap(false, Ordering::SeqCst) {
+                    g.parked_kind.store(1, Ordering::SeqCst);
                     g.parked.store(true, Ordering::SeqCst);
                     while !g.release.load(Ordering::SeqCst) {
                         std::thread::sleep(Duration::from_micros(100));
@@ -187,6 +230,8 @@ fn run_history(rng: &mut Rng, mode: &str, _k: usize) -> String {
             }
             "run.end" => {
                 if g.hold_end.swap(false, Ordering::SeqCst) {
+                    g.hold_item.store(0, Ordering::SeqCst);
+                    g.parked_kind.store(2, Ordering::SeqCst);
                     g.parked.store(true, Ordering::SeqCst);
                     while !g.release.load(Ordering::SeqCst) {
                         std::thread::sleep(Duration::from_micros(100));
@@ -231,12 +276,65 @@ fn run_history(rng: &mut Rng, mode: &str, _k: usize) -> String {
         next_v: 1,
     };
     h.pat_debug.push(format!("{:?}", (0..cols).map(|c| h.nucleo.pattern.column_pattern(c).atoms.clone()).collect::<Vec<_>>()));
+    eprintln!("HIST-BEGIN pool={pool} cols={cols}");
     let nops = 6 + rng.below(if mode == "long" { 40 } else { 18 }) as usize;
     let typing = ["f", "o", "o", "b", "a", "r", " ", "!", "^", "$", "\\", "B", "'", "z"];
-    for _ in 0..nops {
+    // a quarter of the histories start with a scripted prefix aimed at the delicate paths of the worker:
+    // a run cancelled in the middle of a scoring pass followed by an appended edit (Update), a restart or
+    // a rescore; the random tail then continues from there
+    #[derive(Clone)]
+    enum Sc {
+        Op(u64),
+        Text(usize, String, bool),
+        Tick(u64, u64),
+    }
+    let mut script: std::collections::VecDeque<Sc> = std::collections::VecDeque::new();
+    if pool == 1 && rng.chance(1, 2) {
+        script.push_back(Sc::Op(0)); // injector
+        for _ in 0..(4 + rng.below(6)) {
+            script.push_back(Sc::Op(4)); // push / extend
+        }
+        let first = ["f", "o", "b", "a"][rng.below(4) as usize].to_string();
+        script.push_back(Sc::Text(0, first.clone(), false));
+        if rng.chance(1, 2) {
+            script.push_back(Sc::Tick(0, 0));
+            script.push_back(Sc::Op(4));
+            script.push_back(Sc::Op(4));
+            let second = format!("{first}{}", ["o", "a", "r", "b"][rng.below(4) as usize]);
+            script.push_back(Sc::Text(0, second, true));
+        }
+        script.push_back(Sc::Tick(3, 1 + rng.below(4)));
+        match rng.below(4) {
+            0 => script.push_back(Sc::Op(18)), // restart
+            1 => script.push_back(Sc::Text(0, ["ba", "z", ""][rng.below(3) as usize].to_string(), false)),
+            _ => {
+                let cur = match script.iter().rev().find_map(|x| if let Sc::Text(_, t, _) = x { Some(t.clone()) } else { None }) {
+                    Some(t) => t,
+                    None => String::new(),
+                };
+                script.push_back(Sc::Text(0, format!("{cur}{}", ["o", "a", "r", "b", "$"][rng.below(5) as usize]), true));
+            }
+        }
+        script.push_back(Sc::Tick(0, 0));
+    }
+    let mut force_text: Option<(usize, String, bool)> = None;
+    let mut force_tick: Option<(u64, u64)> = None;
+    for _ in 0..(nops + script.len()) {
         let nf0 = h.notify.load(Ordering::SeqCst);
         let run_parked = h.gates.parked.load(Ordering::SeqCst);
-        match rng.below(20) {
+        let code = match script.pop_front() {
+            Some(Sc::Op(c)) => c,
+            Some(Sc::Text(c, t, a)) => {
+                force_text = Some((c, t, a));
+                12
+            }
+            Some(Sc::Tick(hold, k)) => {
+                force_tick = Some((hold, k));
+                15
+            }
+            None => rng.below(20),
+        };
+        match code {
             0 | 1 => {
                 let id = h.next_h;
                 h.next_h += 1;
@@ -316,6 +414,9 @@ fn run_history(rng: &mut Rng, mode: &str, _k: usize) -> String {
                 h.record(format!("reserve:{id}:{v}:{w}={idx}"), nf0, false);
             }
             10 | 11 => {
+                if run_parked && h.gates.parked_kind.load(Ordering::SeqCst) == 3 {
+                    continue;
+                }
                 if let Some((&w, _)) = h.writers.iter().nth(rng.below(h.writers.len().max(1) as u64) as usize) {
                     let wr = h.writers.remove(&w).unwrap();
                     wr.tx.send(()).unwrap();
@@ -325,9 +426,10 @@ fn run_history(rng: &mut Rng, mode: &str, _k: usize) -> String {
             }
             12..=14 => {
                 // edit the pattern of one column like a user typing
-                let c = rng.below(cols as u64) as usize;
+                let forced = force_text.take();
+                let c = forced.as_ref().map(|f| f.0).unwrap_or(rng.below(cols as u64) as usize);
                 let old = h.cur_text[c].clone();
-                let (new, append) = match rng.below(6) {
+                let (new, append) = if let Some((_, t, a)) = forced { (t, a) } else { match rng.below(6) {
                     0 => (String::new(), false),
                     1 => {
                         let mut t = old.clone();
@@ -340,7 +442,7 @@ fn run_history(rng: &mut Rng, mode: &str, _k: usize) -> String {
                         t.push_str(typing[rng.below(typing.len() as u64) as usize]);
                         (t, true)
                     }
-                };
+                } };
                 let append = append && new.starts_with(&old);
                 // descriptor of the column's last atom before the edit: kind, negative, last needle character
                 let last = h.nucleo.pattern.column_pattern(c).atoms.last().map(|a| {
@@ -364,17 +466,33 @@ fn run_history(rng: &mut Rng, mode: &str, _k: usize) -> String {
             15..=17 => {
                 // tick; either let the run finish inside the tick, or hold it so that the tick times out
                 // (hold 1: before the run does anything, hold 2: after it has read `should_notify`)
-                let hold = if rng.chance(1, 3) { if rng.chance(1, 4) && !run_parked { 2 } else { 1 } } else { 0 };
+                let mut hold = if rng.chance(1, 3) { if rng.chance(1, 4) && !run_parked { 2 } else { 1 } } else { 0 };
+                // with a single pool thread the scoring passes are sequential: park the run at its k-th item
+                let mut mid_k = 0u64;
+                if pool == 1 && !run_parked && rng.chance(1, 2) {
+                    hold = 3;
+                    mid_k = 1 + rng.below(3);
+                }
+                if let Some((fh, fk)) = force_tick.take() {
+                    if !(run_parked && fh >= 2) {
+                        hold = fh;
+                        mid_k = fk;
+                    }
+                }
                 if hold == 1 {
                     h.gates.hold_run.store(true, Ordering::SeqCst);
                 } else if hold == 2 {
                     h.gates.hold_end.store(true, Ordering::SeqCst);
+                } else if hold == 3 {
+                    h.gates.hold_item.store(mid_k, Ordering::SeqCst);
+                    h.gates.hold_end.store(true, Ordering::SeqCst);
                 }
+                eprintln!("EV-START tick hold={hold}");
                 let st = h.nucleo.tick(if hold != 0 || run_parked { 15 } else { 3000 });
                 // a run spawned with a hold flag that has not reached its gate yet: wait until it parks
                 let t0 = std::time::Instant::now();
                 while hold != 0
-                    && (h.gates.hold_run.load(Ordering::SeqCst) || h.gates.hold_end.load(Ordering::SeqCst))
+                    && (h.gates.hold_run.load(Ordering::SeqCst) || h.gates.hold_end.load(Ordering::SeqCst) || h.gates.hold_item.load(Ordering::SeqCst) != 0)
                     && h.gates.spawned.load(Ordering::SeqCst) != h.gates.run_ended.load(Ordering::SeqCst)
                     && t0.elapsed() < Duration::from_secs(5)
                 {
@@ -382,11 +500,14 @@ fn run_history(rng: &mut Rng, mode: &str, _k: usize) -> String {
                 }
                 h.gates.hold_run.store(false, Ordering::SeqCst);
                 h.gates.hold_end.store(false, Ordering::SeqCst);
+                h.gates.hold_item.store(0, Ordering::SeqCst);
                 if !h.gates.parked.load(Ordering::SeqCst) {
                     h.wait_run_end(0);
                 }
                 let parked_now = h.gates.parked.load(Ordering::SeqCst);
-                h.record(format!("tick:{}:{}:{}={}{}", hold, run_parked as u8, parked_now as u8, st.changed as u8, st.running as u8), nf0, true);
+                // where the run actually parked (a run with fewer than k items to score parks at run.end)
+                let kind = if parked_now && !run_parked && hold != 0 { h.gates.parked_kind.load(Ordering::SeqCst) } else { hold };
+                h.record(format!("tick:{}:{}:{}:{}={}{}", kind, run_parked as u8, parked_now as u8, mid_k, st.changed as u8, st.running as u8), nf0, true);
             }
             18 => {
                 let clear = rng.chance(1, 2);
@@ -403,21 +524,22 @@ fn run_history(rng: &mut Rng, mode: &str, _k: usize) -> String {
             }
         }
     }
-    // drive to quiescence: publish all writers, release runs, tick until not running
-    for (_, wr) in std::mem::take(&mut h.writers) {
-        wr.tx.send(()).unwrap();
-        wr.handle.join().unwrap();
-    }
-    h.ev.push("publishall".to_string());
+    // drive to quiescence: release a parked run, publish all writers, tick until not running
     if h.gates.parked.load(Ordering::SeqCst) {
         let nf0 = h.notify.load(Ordering::SeqCst);
         h.gates.release.store(true, Ordering::SeqCst);
         h.wait_run_end(0);
         h.record("release".to_string(), nf0, true);
     }
+    for (_, wr) in std::mem::take(&mut h.writers) {
+        wr.tx.send(()).unwrap();
+        wr.handle.join().unwrap();
+    }
+    h.ev.push("publishall".to_string());
     for _ in 0..6 {
         let nf0 = h.notify.load(Ordering::SeqCst);
         let started = h.gates.run_started.load(Ordering::SeqCst);
+        eprintln!("EV-START tick (quiescence)");
         let st = h.nucleo.tick(3000);
         h.wait_run_end(started);
         h.record(format!("tick:0:0:0={}{}", st.changed as u8, st.running as u8), nf0, true);
